@@ -127,7 +127,7 @@ Lemma JT_hole ws tqi tb tk ct cc rt h h' :
        match k_task k with Some (_, rest) => body_from m rest = true | None => m = MRun /\ k_st k = Ready end) ->
   JT ws tqi tb tk ct cc rt h'.
 Proof.
-  intros [Hlen Hq Hta Hhold Hinj Hmode Htb Hte Ht3 Htf Hrtnd Hrt Hrts Hrt3 Hcc Hc0 Hctb Hsuf Hfin] Hnew.
+  intros [Hlen Hq Hta Hhold Hinj Hmode Htb Hte Ht3 Htf Hrtnd Hrt Hrts Hrt3 Hcc Hc0 Hctb Hsuf Hfin Hccnd Hccb] Hnew.
   constructor; try assumption.
   intros w k Hn Hl Hh'. destruct (is_hole h w) eqn:E; [eapply Hnew; eassumption | eapply Hmode; eassumption].
 Qed.
